@@ -84,6 +84,74 @@ func (h hopT) coq() string {
 	return fmt.Sprintf("(%s %s)", h.kind, pairsTerm(h.pairs))
 }
 
+// runSingle: one receive on a single-response method whose handler runs the script
+func runSingle(o *hx.Out, t transportT, ctx context.Context, call *callT, script []hopT, known map[string]pairT, code int64, wait bool) {
+	http := t.name == "httpgrpc"
+	cs, err := t.ch.NewStream(ctx, hx.StreamDescOf("CS"), "/verif.Svc/CS")
+	if err != nil {
+		return
+	}
+	cs.SendMsg(&hx.Msg{})
+	cs.CloseSend()
+	m := &hx.Msg{}
+	err = cs.RecvMsg(m)
+	tlr := cs.Trailer()
+	if wait {
+		call.wait()
+	}
+	runtime.KeepAlive(cs)
+	res := ""
+	switch {
+	case err == nil:
+		res = fmt.Sprintf("(OneOk %d)", m.Count)
+	case err == io.EOF:
+		res = "OneEOF"
+	default:
+		res = fmt.Sprintf("(OneStatus %d)", uint32(status.Code(err)))
+	}
+	var st []string
+	for _, h := range script {
+		st = append(st, h.coq())
+	}
+	desc := map[string]interface{}{"transport": t.name, "kind": "CS", "handler_script": st, "handler_returns": code, "result": res, "trailer": tlr}
+	o.Case("single_"+t.name, fmt.Sprintf("Single %s %s %s %s %s", hx.B(http), hx.List(st), hx.Z(code), res, pairsOf(tlr, known)), desc)
+}
+
+// singleCorpus: 0..5 responses x success or failure x with and without headers and trailers, on a single-response method
+func singleCorpus(o *hx.Out) {
+	trs := bothTransports(scriptSvc())
+	for _, t := range trs {
+		for _, k := range []int{0, 1, 2, 3, 5} {
+			for _, code := range []int64{0, 5} {
+				for _, meta := range []int{0, 1, 2} {
+					var script []hopT
+					known := map[string]pairT{}
+					add := func(kind string, p pairT) {
+						known[mdKeys[p.k]+"\x00"+mdValue(p.k, p.v)] = p
+						script = append(script, hopT{kind: kind, pairs: []pairT{p}})
+					}
+					if meta >= 1 {
+						add("SetHeader", pairT{1, 1})
+					}
+					for i := 1; i <= k; i++ {
+						script = append(script, hopT{kind: "SendMsg", x: int64(i)})
+						if meta == 2 && i == 1 {
+							add("SetTrailer", pairT{2, 2})
+						}
+					}
+					if meta >= 1 {
+						add("SetTrailer", pairT{1, 3})
+					}
+					ctx, call := newScriptCall(script, code)
+					// (in-process, a handler's surplus sends stay blocked until the abandoned stream is collected: not waited for)
+					runSingle(o, t, ctx, call, script, known, code, k < 2)
+				}
+			}
+		}
+		t.stop()
+	}
+}
+
 func genScript(r *hx.Rand, http bool, allowBad bool) (script []hopT, known map[string]pairT) {
 	known = map[string]pairT{}
 	vid := int64(1)
@@ -267,32 +335,7 @@ func runScripts(o *hx.Out, r *hx.Rand, n int, allowBad bool) {
 					hx.B(http), hx.B(headerFirst), hx.List(st), hx.Z(code), acksTerm(acks), hx.List(msgs), finTerm(fin), pairsOf(hdr, known), pairsOf(tlr, known), pairsOf(early, known), hx.B(optsOK)), desc)
 			} else {
 				// a single-response method
-				cs, err := t.ch.NewStream(ctx, hx.StreamDescOf("CS"), "/verif.Svc/CS")
-				if err != nil {
-					continue
-				}
-				cs.SendMsg(&hx.Msg{})
-				cs.CloseSend()
-				m := &hx.Msg{}
-				err = cs.RecvMsg(m)
-				tlr := cs.Trailer()
-				call.wait()
-				runtime.KeepAlive(cs)
-				res := ""
-				switch {
-				case err == nil:
-					res = fmt.Sprintf("(OneOk %d)", m.Count)
-				case err == io.EOF:
-					res = "OneEOF"
-				default:
-					res = fmt.Sprintf("(OneStatus %d)", uint32(status.Code(err)))
-				}
-				var st []string
-				for _, h := range script {
-					st = append(st, h.coq())
-				}
-				desc := map[string]interface{}{"transport": t.name, "kind": "CS", "handler_script": st, "handler_returns": code, "result": res, "trailer": tlr}
-				o.Case("single_"+t.name, fmt.Sprintf("Single %s %s %s %s %s", hx.B(http), hx.List(st), hx.Z(code), res, pairsOf(tlr, known)), desc)
+				runSingle(o, t, ctx, call, script, known, code, true)
 			}
 		}
 	}
@@ -842,6 +885,7 @@ func init() {
 			n = 700
 		}
 		runScripts(o, r, n, false)
+		singleCorpus(o)
 		secondRequestRefused(o)
 		ltsCases(o, r, profile{name: "single", rounds: [2]int{4, 12}, cancel: 5, handlerEnd: 50, headers: 20, kinds: []string{"CS", "CS", "SS"}, returnCodes: []int64{0, 0, 5, -2}}, n)
 		o.Finding = "finding_case"
